@@ -36,7 +36,7 @@ REQUIRED_MONITORS = ["h5_streams_checked", "h5_rows_compared", "xyz_frames_check
 CASE_TIMEOUT = 900.0
 # budgets are sized for 16 workers; with fewer workers (VERIF_NCPU) the same work needs proportionally longer
 _SCALE = max(1.0, 16.0 / max(1, env.NCPU)) * float(os.environ.get("VERIF_BUDGET_SCALE", "1"))   # >1 on a loaded machine
-BUDGET_S = {"quick": 200 * _SCALE, "thorough": 1700 * _SCALE}
+BUDGET_S = {"quick": 900 * _SCALE, "thorough": 1700 * _SCALE}
 MIN_NONTRIVIAL = 4
 
 STREAMS = ("data", "coordinates", "velocities", "forces", "xyz", "nonadiabatic", "print", "checkpoint")
@@ -149,7 +149,7 @@ def gen_cases(tier, seed):
         setups = ["bomd_batch", "langevin", "xl", "fssh"]
         Ns = [7, 12]
         shard = 5
-        n_resumed = 2
+        n_resumed = 1
     else:
         setups = ["bomd_batch", "langevin", "xl", "fssh", "langevin_batch", "xl_batch", "ksa", "cis_bomd"]
         Ns = [7, 12, 30]
@@ -158,9 +158,14 @@ def gen_cases(tier, seed):
     # --- covering array: quick = each row on one engine (round robin); thorough = every row on the four
     #     main engines, plus round robin on the others
     buckets = {}
+    skip = int(g.integers(0, 3))
     for i, row in enumerate(arr):
         if tier == "quick":
-            targets = [(setups[i % len(setups)], Ns[(i // len(setups)) % len(Ns)])]
+            # quick plays two thirds of the array (which third is left out rotates with the seed), one engine per
+            # row, N = 12 for every fourth group of rows; the complete array on every engine is the thorough tier
+            if (i + skip) % 3 == 0:
+                continue
+            targets = [(setups[i % len(setups)], 12 if (i // len(setups)) % 4 == 0 else 7)]
         else:
             targets = [(s, Ns[(i + j) % 2]) for j, s in enumerate(setups[:4])]
             targets.append((setups[4 + i % 4], Ns[i % 2]))
@@ -173,8 +178,14 @@ def gen_cases(tier, seed):
     for setup in setups:
         for N in (Ns[:1] if tier == "quick" else Ns[:2]):
             for name, tup in hostile_tuples(N).items():
-                if tier == "quick" and setup not in ("bomd_batch", "fssh") and name.startswith("zero-in-"):
-                    continue
+                if tier == "quick":
+                    if name == "coprime-2-3-5":
+                        continue           # runs first, in the sentinel case of this engine (below)
+                    core = ("non-divisors", "larger-than-run", "all-zero", "equal-to-run", "one-larger-two-small")
+                    if setup == "fssh" and name not in core + ("zero-in-nonadiabatic", "zero-in-data"):
+                        continue
+                    if setup in ("langevin", "xl") and name not in core:
+                        continue
                 buckets.setdefault((setup, N), []).append({"name": name, "cad": tup, "resume": None})
     # --- thorough: random fill-up over the whole range 0..N+3 (values outside the covering-array lattice)
     if tier == "thorough":
@@ -197,9 +208,9 @@ def gen_cases(tier, seed):
             kill_after = int(cands[int(g.integers(0, len(cands)))])
             lst.append({"name": t["name"] + "+resume", "cad": dict(t["cad"]), "resume": {"after_step": kill_after}})
         # the row-11 witness of DESIGN section 7, resumed as well
-        if setup == "bomd_batch":
+        if setup == "bomd_batch" and not (tier == "quick" and N == 7):
             lst.append({"name": "coprime-2-3-5+resume", "cad": hostile_tuples(N)["coprime-2-3-5"],
-                        "resume": {"after_step": min(N - 1, 5)}})
+                        "resume": {"after_step": 4}})
     # --- shard
     for (setup, N), lst in sorted(buckets.items()):
         _, _, molids = ENGINE_SETUPS[setup]
@@ -210,7 +221,17 @@ def gen_cases(tier, seed):
             cases.append(mk(setup, N, molid, tuples, "%s/N%d/%d" % (setup, N, k // shard)))
     cost = {"fssh": 3.0, "cis_bomd": 1.6, "ksa": 1.3, "xl": 1.2, "xl_batch": 1.4, "langevin_batch": 1.3}
     cases.sort(key=lambda c: -cost.get(c["setup"], 1.0) * c["N"] * len(c["tuples"]))
-    return cases
+    # --- sentinels: one small case per engine with the DESIGN section 7 row 11 witness, fresh and killed + resumed
+    #     (kill after integrator step 4: the checkpoint of step 2 is resumed and the rows of step 3 are overwritten).
+    #     They run first, so every REQUIRED_MONITOR has seen events even if a time budget cuts the run short.
+    first = []
+    for setup in (setups[:4] if tier == "quick" else []):
+        _, _, molids = ENGINE_SETUPS[setup]
+        cad = hostile_tuples(7)["coprime-2-3-5"]
+        first.append(mk(setup, 7, molids[0], [{"name": "coprime-2-3-5", "cad": dict(cad), "resume": None},
+                                              {"name": "coprime-2-3-5+resume", "cad": dict(cad),
+                                               "resume": {"after_step": 4}}], "%s/N7/sentinel" % setup))
+    return first + cases
 
 
 # ---------------------------------------------------------------------------------------
